@@ -30,7 +30,7 @@ RULE = ("one evaluation = one call of the real generator on (size triple, resolu
 
 CLAUSES = {"K": "oracle:KeysDistinct", "R": "oracle:ResolutionRule", "S": "oracle:SizeRule",
            "F": "oracle:FactorSteps", "C": "oracle:ChunkSizes", "L": "oracle:LastScaleFits",
-           "O": "oracle:IsotropyOrder", "B": "oracle:IsotropyBound",
+           "O": "oracle:IsotropyOrder", "B": "oracle:IsotropyBound", "I": "oracle:IsotropyClosest",
            "P": "oracle:PairAssemblable", "X": "oracle:Raised", "J": "oracle:ValidJson",
            "A": "oracle:NotAcceptedByIO"}
 DRIFTS = {1: "design:RaisePrediction", 2: "design:NumberOfScales", 3: "design:Keys",
